@@ -4,7 +4,7 @@ import Sourmash.Model.Csv
 Model/Manifest.lean — `manifest.rs` around the CSV text: `Manifest::to_writer` / `from_reader` at
 the level of `Record`s (serde field order, `intbool` / `to_bool`, integer fields parsed by
 `str::parse`, columns found by header name), `PartialEq for Record` (everything but
-`internal_location` and `md5short`), `intersect_manifest`.
+`internal_location` and `md5short`), `intersect_manifest`, `Collection::check_superset`.
 `Record`, `Record::from_sig`, collections and look-ups are in `Model/Select.lean`.
 -/
 namespace Manifest
@@ -105,5 +105,10 @@ def recEq (a b : Record) : Bool :=
 
 /-- `Manifest::intersect_manifest` : the rows of `a` found in the hash set of `b`'s rows -/
 def intersect (a b : List Record) : List Record := a.filter (fun r => b.any (fun q => recEq r q))
+
+/-- `Collection::check_superset` : the two manifests are walked in step (`zip`: up to the shorter
+    one); `Ok(self.len())` when every pair of rows is equal, `Err` (`none`) otherwise -/
+def checkSuperset (a b : List Record) : Option Nat :=
+  if (a.zip b).all (fun p => recEq p.1 p.2) then some a.length else none
 
 end Manifest
